@@ -197,7 +197,18 @@ impl Prop for C18 {
                 // directives glued to the tokens around them, comments in macro actuals, comment at the end of the text
                 match t.below(6) {
                     0 => text = format!("`define ID(x) x\n{}`ifdef ID\n{}`endif\n{}", t.pick_str(&["a", "b1 ", "q/**/"]), t.pick_str(&["c", "d ", "e//z\n"]), t.pick_str(&["f", " g", "\nh"])),
-                    1 => text = format!("`define ID(x) x\n{}`ID({}){}", t.pick_str(&["a", "a ", "a/**/"]), t.pick_str(&["1 /* one */", "2 /* two */ ", "3"]), t.pick_str(&["b", " b", ";"])),
+                    1 => text = format!(
+                        "`define ID(x) x\n{}`ID({}){}",
+                        t.pick_str(&["a", "a ", "a/**/"]),
+                        // a one-line comment inside an actual ends with the line; what follows the usage must survive it
+                        t.pick_str(&["1 /* one */", "2 /* two */ ", "3", "4 // four\n", "5 // five\n ", "6, 7 // seven\n", "/* c */ 8 // eight\n"]),
+                        t.pick_str(&["b", " b", ";", " + 2;\n"])
+                    ),
+                    3 => text = format!(
+                        "`define DF(x{}) x + 5\n`DF({}) y\nz\n",
+                        t.pick_str(&["", "=1", "=1 /* d */", "=1 // d"]),
+                        t.pick_str(&["", "9", "9 // nine\n", " /* c */ 9"])
+                    ),
                     2 => text.push_str(t.pick_str(&["// end", " // end", "/* end */", "//"])),
                     _ => {}
                 }
